@@ -188,6 +188,37 @@ func Harness_C02_GroupKeys() {
 	vs.Cover("C02/groups-done")
 }
 
+//verif:harness prop=C02 bounds="select distinct g1, g2 from t over two shards answering one row each (each shard's answer is already distinct): values NULL or strings of 0..2 symbolic bytes over {+ a N U L}; merged by the real MergeSelectResult: one row iff the two tuples are equal as SQL values"
+func Harness_C02_Distinct() {
+	p := vhC02Plan("select distinct g1, g2 from t")
+	if p == nil {
+		vs.Cover("C02/distinct-statement-rejected")
+		return
+	}
+	a1, a2, b1, b2 := vhC02Key("a.g1"), vhC02Key("a.g2"), vhC02Key("b.g1"), vhC02Key("b.g2")
+	nf := p.GetColumnCount()
+	row := func(g1, g2 interface{}) []interface{} {
+		r := []interface{}{g1, g2}
+		for len(r) < nf {
+			r = append(r, g1)
+		}
+		return r
+	}
+	rs := []*mysql.Result{vhC02Result(nf, [][]interface{}{row(a1, a2)}), vhC02Result(nf, [][]interface{}{row(b1, b2)})}
+	same := vhC02SameKey(a1, b1) && vhC02SameKey(a2, b2)
+	got, err := MergeSelectResult(p, p.stmt, rs)
+	if err != nil {
+		vs.Cover("C02/distinct-merge-error")
+		return
+	}
+	if same {
+		vs.Assert(len(got.Values) == 1, "C02/equal-rows-of-two-shards-are-one-distinct-row")
+	} else {
+		vs.Assert(len(got.Values) == 2, "C02/different-rows-stay-two-distinct-rows")
+	}
+	vs.Cover("C02/distinct-done")
+}
+
 //verif:harness prop=C02 bounds="select a from t order by a [desc] limit [offset,] count with offset 0..1 and count 1..2, over two shards holding 0..2 rows each with a symbolic in -2..2; each shard answers its rows sorted and cut to offset+count; merged by the real MergeSelectResult"
 func Harness_C02_OrderLimit() {
 	desc := vs.Choice("desc", 2) == 1
